@@ -37,10 +37,10 @@ OpsCore == {"Withdraw", "TakeFromWorktop", "TakeAll", "ReturnToWorktop", "Deposi
 OpsCoreNF == OpsCore \cup {"WithdrawNF", "TakeNF", "MintNF", "AssertNF"}
 OpsProofs == {"Withdraw", "TakeFromWorktop", "TakeAll", "ReturnToWorktop", "Deposit", "Burn", "BurnInAccount", "Recall",
               "ProofOfAmount", "BucketProofOfAmount", "BucketProofOfAll", "PopFromAuthZone", "PushToAuthZone",
-              "CloneProof", "DropProof", "DropAllProofs", "DropAuthZoneRegularProofs"}
+              "CloneProof", "DropProof", "DropAllProofs", "DropAuthZoneRegularProofs", "AzProofOfAmount", "AzProofOfAll"}
 OpsProofsNF == {"WithdrawNF", "TakeNF", "TakeAll", "ReturnToWorktop", "Deposit", "Burn", "BurnNFInAccount", "RecallNF",
                 "ProofOfNF", "BucketProofOfNF", "BucketProofOfAll", "PopFromAuthZone", "CloneProof", "DropProof",
-                "DropAllProofs", "DropAuthZoneRegularProofs"}
+                "DropAllProofs", "DropAuthZoneRegularProofs", "AzProofOfNF", "AzProofOfAll"}
 OpsNF == {"WithdrawNF", "TakeAll", "Deposit", "DepositBatch", "MintNF", "MintNFWrongType", "MintRuid", "Burn",
           "BurnNFInAccount", "UpdateNFData"}
 OpsHist == {"Withdraw", "WithdrawNF", "TakeAll", "Deposit", "DepositBatch", "Mint", "MintNF", "Burn", "BurnInAccount",
@@ -49,7 +49,8 @@ OpsAll == {"Withdraw", "WithdrawNF", "TakeFromWorktop", "TakeNF", "TakeAll", "Re
            "Mint", "MintNF", "MintNFWrongType", "MintRuid", "Burn", "BurnInAccount", "BurnNFInAccount", "Recall", "RecallNF",
            "ProofOfAmount", "ProofOfNF", "BucketProofOfAmount", "BucketProofOfNF", "BucketProofOfAll", "PopFromAuthZone",
            "PushToAuthZone", "CloneProof", "DropProof", "DropAllProofs", "DropNamedProofs", "DropAuthZoneProofs",
-           "DropAuthZoneRegularProofs", "AssertContains", "AssertAny", "AssertNF", "UpdateNFData"}
+           "DropAuthZoneRegularProofs", "DropAuthZoneSignatureProofs", "AzProofOfAmount", "AzProofOfNF", "AzProofOfAll",
+           "AssertContains", "AssertAny", "AssertNF", "UpdateNFData"}
 
 \* simulation weights (GenLedger)
 WCore == <<"Withdraw", "Withdraw", "TakeFromWorktop", "TakeFromWorktop", "TakeAll", "TakeAll", "Mint", "WithdrawNF", "WithdrawNF", "TakeNF", "MintNF",
